@@ -878,13 +878,14 @@ func (ls *LanceroSource) distributeData(buffersMsg BuffersChanType) *dataBlock {
 	// Then we record the "rowcounts", where rowcount = nrow*framecount+row
 	// external trigger search must occur before Mix, since mix alters FB in place
 	externalTriggerRowcounts := make([]int64, 0)
-	nrows := ls.devices[0].nrows
+	// geometry of the active card (card 0 need not be in use, or exist at all)
+	nrows := ls.active[0].nrows
 	for frame := 0; frame < framesUsed; frame++ { // frame within this block, need to add ls.nextFrameNum for consistent timing across blocks
 		for row := 0; row < nrows; row++ { // search the first column for frame bit level triggers
 			channelIndex := row*2 + 1
 			// datacopies is in readout order (r0c0, r0c1, ..., r1c0, ...), two streams per pixel: the
 			// feedback of column 0 in this row is ncols pixels further on for every row.
-			channelIndex = row*ls.devices[0].ncols*2 + 1
+			channelIndex = row*ls.active[0].ncols*2 + 1
 			v := datacopies[channelIndex][frame]
 			externalTriggerState := (v & 0x02) == 0x02 // external trigger bit is 2nd least significant bit in feedback (odd channelIndex)
 			if externalTriggerState && !ls.externalTriggerLastState {
